@@ -167,6 +167,18 @@ func (g *planGen) knownLeaf(a *spec.Attr, tt tftypes.Type, ft reflect.Type, p st
 	if ft.Kind() == reflect.Ptr {
 		ft = ft.Elem()
 	}
+	// the schema under test may disagree with the model about the leaf type (that is judged by
+	// C02 and by the differential dumps): never hand the framework a value of another kind
+	want := tftypes.String
+	switch a.Leaf {
+	case spec.LInt64, spec.LFloat64:
+		want = tftypes.Number
+	case spec.LBool:
+		want = tftypes.Bool
+	}
+	if !tt.Equal(want) {
+		return tftypes.NewValue(tt, nil)
+	}
 	r := rng{s: g.x.prf.U64(g.in, p, "pleaf")}
 	zero := r.intn(6) == 0 || (g.mode == pZeroHeavy && r.intn(2) == 0)
 	switch a.Leaf {
